@@ -38,7 +38,7 @@ def run_lemmas(prop, which, functions, assumptions, explanation, extra_fn=None):
   thorough = fw.tier() == 'thorough'
   src, names, lex = K.source(thorough)
   names = names if which == 'c15' else lex
-  res = kernels.run_kernels(out, 'scanner lemmas', src, names, 3600 if thorough else 900, replay_k)
+  res = kernels.run_kernels(out, 'scanner lemmas', src, names, 5400 if thorough else 2400, replay_k)
   confirmed = [n for n in names if res[n].get('verdict') == 'confirmed' and res[n].get('twin') == 'reachable']
   out.coverage.update({
       'evaluations': len(names),
